@@ -16,7 +16,7 @@ from mc.gen import fprog
 ID = "C01"
 LEVEL = "translation_validation"
 EXHAUSTIVE = True
-CASE_TIMEOUT = 3000
+CASE_TIMEOUT = 14400
 RULE = ("programs = every statement template of the grammar in mc/gen/fprog.py "
         "(DO, IF, SELECT CASE, WHERE, array assignment, intrinsics, expressions, "
         "calls with named/optional arguments, verbatim statements, ALLOCATE, RETURN; "
@@ -182,8 +182,9 @@ def verdicts(progs):
             diff = compare(prog, run_o[num][1], stdout)
             if status == "timeout":
                 res["cls"] = "violation"
-                res["kind"] = "runtime:timeout"
-                res["msg"] = "the re-written program does not terminate"
+                res["kind"] = "runtime:cpu-limit"
+                res["msg"] = ("the re-written program does not terminate ("
+                              + detail + ")")
             elif status != "ok":
                 res["cls"] = "violation"
                 res["kind"] = "runtime:" + c01_gfo.slug(detail)
